@@ -161,15 +161,18 @@ Section MainLoop.
   Variable whens : list val.
   Hypothesis Hb : forall st i m vs st', at1 st tid i m -> eval_args ev whens st = Ok vs st' -> at1 st' tid i m.
 
-  Lemma true_cond : forall st i m, at1 st tid i m ->
-    exists v st', ev (VBool true) st = Ok v st' /\ at1 st' tid i m /\ truthy st' v = (fun _ : Z => true) i.
-  Proof. intros st i m H. exists (VBool true), st. rewrite Htrue. repeat split. exact H. Qed.
+  Lemma true_cond : forall st i m, at1i tid (fun _ => True) st i m ->
+    exists v st', ev (VBool true) st = Ok v st' /\ at1i tid (fun _ => True) st' i m /\ truthy st' v = (fun _ : Z => true) i.
+  Proof. intros st i m H. exists (VBool true), st. rewrite Htrue. repeat split; apply H. Qed.
+
+  Lemma Hb' : forall st i m vs st', at1i tid (fun _ => True) st i m -> eval_args ev whens st = Ok vs st' -> at1i tid (fun _ => True) st' i m.
+  Proof. intros st i m vs st' [_ H] E. split; [exact I|apply (Hb _ _ _ _ _ H E)]. Qed.
 
   Theorem main_loop_visits_every_index fuel st i m :
     at1 st tid i m -> 0 <= i <= m -> (Z.to_nat (m - i) < fuel)%nat -> whens <> [] ->
     op_whenever fuel ev (VBool true :: whens) st =
     (r <- wh_spec ev tid (VBool true) whens (zrange_nat i (S (Z.to_nat (m - i)))) VNone ;; set_trace_index tid i ;;; ret r) st.
-  Proof. apply (whenever_single ev tid (VBool true) (fun _ => true) true_cond whens Hb). Qed.
+  Proof. intros Hat. apply (whenever_single ev tid (VBool true) (fun _ => true) (fun _ => True) (fun _ _ _ _ _ _ => I) true_cond whens Hb'). split; [exact I|exact Hat]. Qed.
 
   (** one visit evaluates every statement's (when ...) form, in source order *)
   Theorem visit_runs_all_statements last st :
